@@ -47,6 +47,13 @@ func TestVerif(t *testing.T) {
 }
 
 var registry = map[string]func(t *testing.T, c *Collector){
+	"C17": func(t *testing.T, c *Collector) {
+		c.res.Rule = "all interleavings (<= bound preemptions) of Close with the real flusher goroutine and both GC goroutines, with ticks of the fake clock placing a flush, a primary-GC cycle and/or an index-GC cycle in progress, optionally a concurrent writer; oracle at the moment Close returns: nil error, no goroutine executing store code (runtime.Stack census), 0 open descriptors (MemFS ledger); after 3x the GC interval of fake time: no file-system mutation, census still empty; the directory reopens as a linearization of the acknowledged calls, also after a further GC round; plus failing opens and 20 open/close cycles (sequential); non-trivial = two threads alternated on the same lock or file"
+		scs := c17Scenarios(c.job.Tier)
+		c.res.Bound = fmt.Sprintf("%d scenarios, preemption bound %d (GC-in-progress scenarios: %d); 8 failing-open situations; 20 open/close cycles", len(scs), scs[0].Bound, scs[0].Bound-1)
+		runC17Seq(t, c)
+		runConcScenarios(t, c, scs)
+	},
 	"C12": func(t *testing.T, c *Collector) {
 		c.res.Rule = "all interleavings (<= bound preemptions, <= n ticks of the fake clock) of rate-limited writers' back-pressure steps with the real flusher goroutine, the sync ticker and explicit Flush calls; oracle: when nothing is enabled any more, three further fair ticks must release every waiting writer (else stuck-writer), calls return without error and the history is linearizable; non-trivial = two threads alternated on the same lock or file"
 		scs := c12Scenarios(c.job.Tier)
